@@ -45,6 +45,13 @@ CHECKS.append(
      "technique": "systematic schedule enumeration (every interleaving with <= 3 deviations, line/call granularity, on the real generator code in the simulation kernel) + random schedules + sequential property-based checks with an independent successor/format model",
      "text": "For every configuration (generator kind, start value incl. MAX-2..MAX, 2..3 threads, 1..3 draws each) all schedules with at most 3 preemptions / non-default picks are executed and the multiset of handed-out ids must be exactly the successors of the start value (distinct, non-zero, wrapping to 1); random schedules go to 6 deviations. Sequential runs of 10^5 draws across the wrap, end-to-end initial value vs start time over boundary and random timestamps (also through Node()), session-id format against an independent formatter.",
      "note": "Exhaustive only within the deviation bound and the listed configurations; preemption granularity is source line / Python-level call, not bytecode."})
+ENGINES.append({"name": "E4-nodeworld", "path": "dv/world.py", "serves_properties": ["C06", "C07", "C08", "C09", "C10", "C11", "C12", "C13", "C14", "C15", "C17", "C18", "C19"],
+                "kind_free_text": "a real Node inside the simulation kernel, harness-played peers, transcript parsed by the reference parser, monitors (answer matching, table invariants, dead threads), JSON event scripts with ddmin shrinking"})
+CHECKS.append(
+    {"id": "C06", "engine": "E4-nodeworld", "category": "exploration", "design_ref": "DESIGN.md section 5 C06",
+     "technique": "model-based testing: bounded-exhaustive enumeration of event sequences plus Hypothesis-generated deeper histories against a reference model of the handshake, on the real node in a deterministic simulation with a virtual clock",
+     "text": "All symbol sequences up to depth 3 (quick) / 4 (thorough) over 15 inbound / 13 outbound event kinds on 2 base configurations, and random histories to depth 12 over 4 configurations (0..2 applications, 1..3 peers, node and per-peer cer/cea timeouts, wakeup 1..6 s). The model predicts per step the frames the node must emit (CEA content, result code), application callbacks (none before success), readiness, Peer.connection, Node.route_request outcome, socket closure and the safety/promptness window of the CER/CEA timeout.",
+     "note": "Trusted: the virtual socket/clock model (dv/simkernel.py), the reference parser. One CER per connection; timer reference = last bytes received; connects complete at dial time."})
 
 _TODO = "check not built yet in this session (planned, see DESIGN.md); not claimed until its machinery is committed"
 NOT_APPLICABLE = [{"property_id": f"C{n:02d}", "reason": _TODO} for n in range(2, 21) if f"C{n:02d}" not in {c["id"] for c in CHECKS}]
